@@ -551,8 +551,18 @@ func mCases(c *core.Ctx, keepQuick int, filter func(*wCase) bool) ([]*wCase, []*
 	}
 	ms := mEnumerate(c, cfg, keep, filter)
 	var cases []*b1.Case
+	first, last := 0, 0
 	for i, m := range ms {
 		cases = append(cases, mConcretise(i, m))
+		if len(m.Prog.Notes) > 0 && m.nOptLines > 0 {
+			first++
+		} else if len(m.Prog.Notes) > 0 {
+			last++
+		}
+	}
+	// both placements of the option lines must really occur (a constant sampling bit once hid one of them)
+	if first+last > 200 && (first == 0 || last*20 < first) {
+		core.Machinery("matching concretiser: option lines before the notations in %d programs, after them in %d: one placement is not exercised", first, last)
 	}
 	return ms, cases
 }
